@@ -2,6 +2,7 @@ package crashrig
 
 import (
 	"fmt"
+	"os"
 	"runtime"
 
 	cs "github.com/lianxiangcloud/linkchain/consensus"
@@ -32,8 +33,9 @@ type pruneRun struct {
 	// read tap used as the runaway guard of a pruning call
 	armed   bool
 	reads   int
-	aborted bool
+	aborted   bool
 	evaluated bool
+	rel       string // K against the chain height L at the latest pruning call
 }
 
 const pruneReadBudget = 60000
@@ -140,6 +142,11 @@ func rel(K, L uint64) string {
 // afterwards, never from the abort.
 func (p *pruneRun) prune(n *node, K uint64) {
 	done := make(chan struct{})
+	// data lost by a call made while the chain was shorter than K stays lost:
+	// once "K>L" has applied, later observations are attributed to it
+	if p.rel != "K>L" {
+		p.rel = rel(K, n.storeHeight())
+	}
 	p.armed, p.reads, p.aborted = true, 0, false
 	n.disk.MissingRead = func(db string, key []byte) bool {
 		if p.armed {
@@ -175,7 +182,7 @@ func (p *pruneRun) prune(n *node, K uint64) {
 		p.tracef("pruning with K=%d at height %d ran away (more than %d reads) and was aborted", K, n.storeHeight(), pruneReadBudget)
 	}
 	if panicMsg != "" {
-		p.c.Violate("prune-panic", "C13/prune/panic/"+rel(K, n.storeHeight()), "pruning with K=%d at height %d panics: %s", K, n.storeHeight(), firstLines(panicMsg, 300))
+		p.c.Violate("prune-panic", "C13/prune/panic/"+p.rel, "pruning with K=%d at height %d panics: %s", K, n.storeHeight(), firstLines(panicMsg, 300))
 	}
 }
 
@@ -192,8 +199,7 @@ func (p *pruneRun) checkWindow(n *node, K uint64, phase string) bool {
 	}
 	c.Evals(1)
 	p.evaluated = true
-	r := rel(K, H)
-	type miss struct{ what, detail string }
+	r := p.rel
 	var first = map[string]bool{}
 	report := func(what string, h uint64, format string, args ...interface{}) bool {
 		key := "C13/prune/" + what + "/" + r
@@ -202,6 +208,13 @@ func (p *pruneRun) checkWindow(n *node, K uint64, phase string) bool {
 		}
 		first[key] = true
 		msg := fmt.Sprintf(format, args...)
+		if os.Getenv("C13_LIST") != "" {
+			if !listed[key] {
+				listed[key] = true
+				fmt.Printf("C13_LIST %s | %s: H=%d K=%d(%s) window %d..%d h=%d: %s\n", key, phase, H, K, p.w.conf.KeepName, lo, H, h, msg)
+			}
+			return true
+		}
 		return !c.Violate("prune-"+what, key, "%s: chain height %d, retention K=%d (%s), retained window %d..%d, height %d: %s", phase, H, K, p.w.conf.KeepName, lo, H, h, msg)
 	}
 	for h := lo; h <= H; h++ {
@@ -295,7 +308,7 @@ func (p *pruneRun) run() {
 				if phase == "" {
 					c.HarnessTrouble("chain did not reach height %d before any pruning: %s", h, why)
 				} else {
-					c.Violate("prune-chain-halts", "C13/prune/chain-halts/"+rel(K, n.storeHeight()), "%s: the chain cannot commit height %d: %s", phase, h, why)
+					c.Violate("prune-chain-halts", "C13/prune/chain-halts/"+p.rel, "%s: the chain cannot commit height %d: %s", phase, h, why)
 				}
 				return false
 			}
@@ -350,7 +363,7 @@ func (p *pruneRun) run() {
 			n = n2
 		}
 		if panicked || oerr != nil {
-			c.Violate("prune-restart", "C13/prune/restart-fails/"+rel(K, L+2), "a node pruned with K=%d does not restart: panic=%v %s %s err=%v", K, panicked, site, firstLines(msg, 200), oerr)
+			c.Violate("prune-restart", "C13/prune/restart-fails/"+p.rel, "a node pruned with K=%d does not restart: panic=%v %s %s err=%v", K, panicked, site, firstLines(msg, 200), oerr)
 			return
 		}
 		n.settle()
